@@ -41,25 +41,35 @@ Keys == <<[v |-> "present", ok |-> TRUE], [v |-> "empty", ok |-> FALSE], [v |-> 
 Versions == <<[v |-> "13", ok |-> TRUE], [v |-> "8", ok |-> TRUE], [v |-> "12", ok |-> FALSE], [v |-> "14", ok |-> FALSE],
               [v |-> Absent, ok |-> FALSE]>>
 \* (Host, Origin, relation)
-Origins == <<[host |-> "example.com", v |-> Absent, rel |-> "absent"],
-             [host |-> "example.com", v |-> "http://example.com", rel |-> "same"],
-             [host |-> "example.com", v |-> "https://example.com", rel |-> "same"],
-             [host |-> "example.com:8080", v |-> "http://example.com:8080", rel |-> "same"],
-             [host |-> "example.com:8080", v |-> Absent, rel |-> "absent"],
-             [host |-> "example.com", v |-> "http://EXAMPLE.com", rel |-> "same"],
-             [host |-> "example.com", v |-> "http://example.com:80", rel |-> "equiv"],
-             [host |-> "example.com:80", v |-> "http://example.com", rel |-> "equiv"],
-             [host |-> "example.com", v |-> "http://example.com:8080", rel |-> "other"],
-             [host |-> "example.com:8080", v |-> "http://example.com", rel |-> "other"],
-             [host |-> "example.com:8080", v |-> "http://example.com:8081", rel |-> "other"],
-             [host |-> "example.com", v |-> "http://evil.com", rel |-> "other"],
-             [host |-> "example.com", v |-> "http://example.com.evil.com", rel |-> "other"],
-             [host |-> "example.com", v |-> "http://evilexample.com", rel |-> "other"],
-             [host |-> "example.com", v |-> "http://user@example.com", rel |-> "equiv"],
-             [host |-> "example.com", v |-> "http://example.com@evil.com", rel |-> "other"],
-             [host |-> "example.com", v |-> "http://", rel |-> "other"],
-             [host |-> "example.com", v |-> "null", rel |-> "other"],
-             [host |-> "example.com", v |-> "example.com", rel |-> "other"]>>
+Origins == <<[host |-> "example.com", v |-> Absent, legacy |-> Absent, rel |-> "absent"],
+             [host |-> "example.com", v |-> "http://example.com", legacy |-> Absent, rel |-> "same"],
+             [host |-> "example.com", v |-> "https://example.com", legacy |-> Absent, rel |-> "same"],
+             [host |-> "example.com:8080", v |-> "http://example.com:8080", legacy |-> Absent, rel |-> "same"],
+             [host |-> "example.com:8080", v |-> Absent, legacy |-> Absent, rel |-> "absent"],
+             [host |-> "example.com", v |-> "http://EXAMPLE.com", legacy |-> Absent, rel |-> "same"],
+             [host |-> "example.com", v |-> "http://example.com:80", legacy |-> Absent, rel |-> "equiv"],
+             [host |-> "example.com:80", v |-> "http://example.com", legacy |-> Absent, rel |-> "equiv"],
+             [host |-> "example.com", v |-> "http://example.com:8080", legacy |-> Absent, rel |-> "other"],
+             [host |-> "example.com:8080", v |-> "http://example.com", legacy |-> Absent, rel |-> "other"],
+             [host |-> "example.com:8080", v |-> "http://example.com:8081", legacy |-> Absent, rel |-> "other"],
+             [host |-> "example.com", v |-> "http://evil.com", legacy |-> Absent, rel |-> "other"],
+             [host |-> "example.com", v |-> "http://example.com.evil.com", legacy |-> Absent, rel |-> "other"],
+             [host |-> "example.com", v |-> "http://evilexample.com", legacy |-> Absent, rel |-> "other"],
+             [host |-> "example.com", v |-> "http://user@example.com", legacy |-> Absent, rel |-> "equiv"],
+             [host |-> "example.com", v |-> "http://example.com@evil.com", legacy |-> Absent, rel |-> "other"],
+             [host |-> "example.com", v |-> "http://", legacy |-> Absent, rel |-> "other"],
+             [host |-> "example.com", v |-> "null", legacy |-> Absent, rel |-> "other"],
+             [host |-> "example.com", v |-> "example.com", legacy |-> Absent, rel |-> "other"],
+             \* an Origin header that is present decides, even with an empty value; the hybi-08 header
+             \* Sec-WebSocket-Origin ("host" = the scheme + Host value) only counts when Origin is absent
+             [host |-> "example.com", v |-> "", legacy |-> Absent, rel |-> "other"],
+             [host |-> "example.com", v |-> "", legacy |-> "host", rel |-> "other"],
+             [host |-> "example.com", v |-> Absent, legacy |-> "host", rel |-> "same"],
+             [host |-> "example.com:8080", v |-> Absent, legacy |-> "host", rel |-> "same"],
+             [host |-> "example.com", v |-> Absent, legacy |-> "http://evil.com", rel |-> "other"],
+             [host |-> "example.com", v |-> Absent, legacy |-> "", rel |-> "other"],
+             [host |-> "example.com", v |-> "http://example.com", legacy |-> "http://evil.com", rel |-> "same"],
+             [host |-> "example.com", v |-> "http://evil.com", legacy |-> "host", rel |-> "other"]>>
 \* subprotocol offers and what the application's policy selects from them
 Subs == <<[offer |-> Absent, policy |-> "none", sel |-> Absent],
           [offer |-> "chat", policy |-> "none", sel |-> Absent],
@@ -75,7 +85,11 @@ Exts == <<[v |-> Absent, deflate |-> FALSE, clean |-> TRUE],
           [v |-> "permessage-deflate; server_no_context_takeover; client_max_window_bits=10", deflate |-> TRUE, clean |-> TRUE],
           [v |-> "x-webkit-deflate-frame", deflate |-> FALSE, clean |-> TRUE],
           [v |-> "x-unknown, permessage-deflate", deflate |-> TRUE, clean |-> TRUE],
-          [v |-> "permessage-deflate; bogus_parameter=1", deflate |-> FALSE, clean |-> FALSE]>>
+          [v |-> "permessage-deflate; bogus_parameter=1", deflate |-> FALSE, clean |-> FALSE],
+          [v |-> "permessage-deflate; client_max_window_bits=7", deflate |-> FALSE, clean |-> FALSE],
+          [v |-> "permessage-deflate; server_max_window_bits=16", deflate |-> FALSE, clean |-> FALSE],
+          [v |-> "permessage-deflate; client_max_window_bits=x", deflate |-> FALSE, clean |-> FALSE],
+          [v |-> "permessage-deflate; server_max_window_bits=7; client_max_window_bits=12, permessage-deflate", deflate |-> TRUE, clean |-> FALSE]>>
 Enabled == <<FALSE, TRUE>>
 
 Dev(i) == IF i = 1 THEN 0 ELSE 1
